@@ -424,6 +424,9 @@ func raceGroup(w *World) {
 	for i := range fails {
 		fails[i] = t.Flag(1, 2)
 	}
+	// what every member reads and the caller goes on using once the call is over (a request it retries with, say):
+	// "not until all executions have completed" is what keeps the two apart
+	shared := tam(7)
 	var members []group.Member
 	for i := 0; i < n; i++ {
 		i := i
@@ -434,6 +437,7 @@ func raceGroup(w *World) {
 				task := w.Adopt(fmt.Sprintf("m%d", i), false)
 				defer task.Done()
 			}
+			touch(shared)
 			if ctx.Err() != nil {
 				return nil, ctx.Err()
 			}
@@ -443,14 +447,29 @@ func raceGroup(w *World) {
 			return tam(int32(i)), nil
 		})
 	}
+	ctx, cancel := context.WithCancel(context.Background())
+	if t.Flag(1, 2) {
+		k := t.Choose(4)
+		w.Go("canceller", false, func(ct *Task) {
+			for i := 0; i < k; i++ {
+				ct.Yield("wait")
+			}
+			cancel()
+		})
+	}
 	w.Go("caller", false, func(*Task) {
-		res, err := group.Execute(context.Background(), strat, members)
+		res, err := group.Execute(ctx, strat, members)
 		for _, r := range res {
 			touch(r)
 		}
 		_ = err
+		if s := strat; s != group.ExecutionStrategyFast && s != group.ExecutionStrategyRace {
+			// All / Most / Any / One do not return before every member has: the caller has its request back
+			shared.DefaultInt32++
+		}
 	})
 	w.Run()
+	cancel()
 }
 
 func raceModels(w *World) {
